@@ -38,6 +38,45 @@ def check_roundtrip(c):
             raise Violation(tag + ":other-object-dec(enc(B))!=B", blk, None)
 
 
+def check_rt_history(c):
+    """one object, several round trips in both orders, interleaved with bare calls and refused (wrong-size) calls"""
+    obj = guard(CI.make, c)
+    tag = CI.label(c) + ":history"
+    n = CI.BLOCK[c["cipher"]]
+    for i, (kind, blk) in enumerate(c["calls"]):
+        if kind.startswith("bad-"):
+            attempt(getattr(obj, kind[4:]), blk)
+        elif kind in ("enc", "dec"):
+            r = guard(getattr(obj, kind), blk)
+            expect(isinstance(r, bytes) and len(r) == n, tag + ":|%s(B)|!=|B|" % kind, n, repr(r)[:80])
+        elif kind == "rt":
+            e = guard(obj.enc, blk)
+            d = guard(obj.dec, e)
+            if d != blk:
+                raise Violation(tag + ":dec(enc(B))!=B", {"call": i, "B": blk}, {"call": i, "B": d})
+            if guard(guard(CI.make, c).dec, e) != blk:
+                raise Violation(tag + ":other-object-dec(enc(B))!=B", {"call": i, "B": blk}, None)
+        elif kind == "tr":
+            d = guard(obj.dec, blk)
+            e = guard(obj.enc, d)
+            if e != blk:
+                raise Violation(tag + ":enc(dec(B))!=B", {"call": i, "B": blk}, {"call": i, "B": e})
+            if guard(guard(CI.make, c).enc, d) != blk:
+                raise Violation(tag + ":other-object-enc(dec(B))!=B", {"call": i, "B": blk}, None)
+        else:
+            raise AssertionError(kind)
+
+
+def rt_history_strategy(tier):
+    def with_calls(c):
+        n = CI.BLOCK[c["cipher"]]
+        good = st.tuples(st.sampled_from(["rt", "tr", "rt", "tr", "enc", "dec"]), gen.blob(n))
+        bad = st.tuples(st.sampled_from(["bad-enc", "bad-dec"]), gen.blob_of(st.sampled_from([n - 1, n + 1, 0, n // 2, 2 * n])))
+        return st.lists(gen.pick((4, good), (1, bad)), min_size=2, max_size=6).map(
+            lambda l: dict(c, calls=tuple(l) + (("rt", bytes(range(n))), ("tr", bytes(range(n))))))
+    return CI.config_strategy().flatmap(with_calls)
+
+
 def roundtrip_strategy(tier):
     def with_block(c):
         n = CI.BLOCK[c["cipher"]]
@@ -222,6 +261,11 @@ FACETS = [
     Facet("cipher-roundtrip-random", check_roundtrip, strategy=roundtrip_strategy, budget={"quick": 3000, "thorough": 60000},
           shards={"quick": 16, "thorough": 32}, nontrivial=lambda c: len(set(c["block"])) > 1, classify=lambda c: (CI.label(c),),
           rule="random configurations and blocks: dec(enc(B)) == B == enc(dec(B)), lengths, and a second equally configured object decrypts"),
+    Facet("cipher-roundtrip-histories", check_rt_history, strategy=rt_history_strategy, budget={"quick": 1200, "thorough": 30000},
+          shards={"quick": 16, "thorough": 32}, nontrivial=lambda c: len(c["calls"]) >= 3,
+          classify=lambda c: (CI.label(c), "has refused call" if any(k.startswith("bad-") for k, _ in c["calls"]) else "no refused call"),
+          rule="ONE object: 4..8 calls mixing round trips in both orders, bare enc/dec calls and refused calls with a block of the wrong "
+               "size; every round trip is also inverted by a fresh equally configured object"),
     Facet("components-exhaustive", check_component, cases=component_cases, exhaustive=True, distinct=False,
           nontrivial=nontriv_comp, classify=lambda c: (c["comp"],), shards={"quick": 8, "thorough": 8},
           rule="AES Sbox/Sbox_inv on all 256 values, ShiftRows/SubBytes position states, MixColumns on all 16x256 single-byte states "
